@@ -4,7 +4,7 @@ from __future__ import annotations
 import random
 
 from .. import gen, model, sem
-from ..snapshot import CLASS_NAMES, build, classes, pg_from_json, pg_to_json, snap
+from ..snapshot import CLASS_NAMES, DerivationWrong, build, build_case, classes, pg_from_json, pg_to_json, snap
 
 LEVEL = "exploration"
 RULE = (
@@ -30,7 +30,7 @@ ANCHORS = [
 ]
 REQUIRED_ANCHORS = ANCHORS
 ITERABLES = ("list", "tuple", "set", "frozenset", "keys", "generator", "iterator")
-REQUIRED = ["subgraphs", "composes", "component_checks", "recompose_components", "cut_descriptor", "cut_change", "with_placeholder"] + [f"iterable:{k}" for k in ITERABLES] + ["cover:components", "cover:partition", "cover:overlap"]
+REQUIRED = ["subgraphs", "composes", "component_checks", "recompose_components", "cut_descriptor", "cut_change", "with_placeholder"] + [f"iterable:{k}" for k in ITERABLES] + ["cover:components", "cover:partition", "cover:overlap", "scale_cases"]
 
 
 def as_iterable(kind, S):
@@ -69,6 +69,18 @@ def gen_cases(ctx):
                 S = rng.sample(ids, rng.randint(1, len(ids)))
             subs.append([kind, S])
         yield {"cls": cls, "pg": pg_to_json(pg), "subsets": subs, "cover": ("components", "partition", "overlap")[(i // 4) % 3], "pseed": rng.randrange(1 << 30), "pieces_as": rng.choice(["list", "tuple"])}
+    yield from _scale_cases(ctx, rng)
+
+
+def _scale_cases(ctx, rng):
+    """very long chains: traversal depth ~ n (recursion limits), n*n index arithmetic"""
+    for k, n in enumerate(gen.SCALE_SIZES[ctx.tier]):
+        for c, cls in enumerate(CLASS_NAMES):
+            gseed = rng.randrange(1 << 30)
+            r2 = random.Random(gseed)
+            ids = list(gen.scale_pg(random.Random(gseed), cls, n)["atoms"])
+            subs = [["list", r2.sample(ids, len(ids) // 2)], ["set", ids[: len(ids) // 3]]]
+            yield {"cls": cls, "scale": n, "gseed": gseed, "subsets": subs, "cover": ("components", "partition")[(k + c) % 2], "pseed": rng.randrange(1 << 30), "pieces_as": "list"}
 
 
 def _check_graph(ctx, got_g, want, cls, case, key, what):
@@ -88,10 +100,21 @@ def _check_graph(ctx, got_g, want, cls, case, key, what):
 
 
 def check_case(ctx, case):
-    pg = pg_from_json(case["pg"])
     cls = case["cls"]
+    if "scale" in case:
+        pg = gen.scale_pg(random.Random(case["gseed"]), cls, case["scale"])
+        ctx.count("scale_cases")
+        ctx.count(f"scale:{case['scale']}")
+    else:
+        pg = pg_from_json(case["pg"])
     rng = random.Random(case["pseed"])
-    g = build(pg, rng=rng)
+    try:
+        g, via = build_case(pg, case["pseed"])
+    except DerivationWrong as e:
+        ctx.violate(f"C17/derived-input-differs/{cls}/{e.via}", f"deriving the input graph: {e}", case)
+        ctx.case()
+        return
+    ctx.count(f"via:{via}")
     src = snap(g)
     Cls = classes()[cls]
     descs = list(pg["astereo"].values()) + list(pg["bstereo"].values())
@@ -175,4 +198,4 @@ def check_case(ctx, case):
                     ctx.violate(f"C17/recompose-components/{cls}/not-equal", "compose(component subgraphs) != g", case)
             except Exception as e:  # noqa: BLE001
                 ctx.violate(f"C17/recompose-components/{cls}/eq-raises:{type(e).__name__}", f"== raised {e!r}", case)
-    ctx.sample({"class": cls, "graph": case["pg"], "subsets": case["subsets"][:2], "cover": cover, "parts": [list(p)[:6] for p in parts][:3]})
+    ctx.sample({"class": cls, "graph": case.get("pg", f"scale chain n={case.get('scale')}"), "subsets": [[k_, list(S_)[:8]] for k_, S_ in case["subsets"][:2]], "cover": cover, "parts": [list(p)[:6] for p in parts][:3]})
